@@ -253,7 +253,9 @@ class CSSStyleSheet(cssutils.stylesheets.StyleSheet):
             elif rule.wellformed:
                 if rule.prefix not in self.namespaces:
                     # add new if not same prefix
-                    self.insertRule(rule, _clean=False)
+                    if self.insertRule(rule, _clean=False) is None:
+                        # refused (e.g. after @variables): not declared
+                        return 2
                 else:
                     # same prefix => replace namespaceURI
                     for r in self.cssRules.rulesOfType(rule.NAMESPACE_RULE):
